@@ -20,6 +20,11 @@
     are stamped by proxies (a handful per packet); recorded as an observation, not exercised.
 -/
 import XMT.BatchLast
+import XMT.BatchTags
+import XMT.BatchTagsWitness
+import XMT.BatchDrawLemmas
+import XMT.BatchDrawDrain
+import XMT.BatchBlockLemmas
 namespace XMT.Props.C03
 open XMT XMT.Packet XMT.Batch
 
@@ -97,5 +102,190 @@ example : QWF (dat 5) := by
 example : (nextPacket 256 1000 [nop] (some nop) dev []).1 = some nop := by decide
 example : ((nextPacket 256 1000 [nop, dat 6] (some (dat 5)) dev []).1.map (unpack 3)) =
     some (.ok [dat 5, dat 6]) := by rfl
+
+/-! ## Extension s3, part 1: is the batch handed out marshalable? (the merged tag list)
+
+`writeUnpack` appends the tag list of every packed packet to the batch, `Session.next` stamps
+`mergeTags(batch tags, tags of the packet picked first)` on what goes out, `Marshal` refuses more
+than `PacketMaxTags` tags. `mergeTags` ranges over a Go map, so the theorems hold for EVERY merge
+function `mg` with `IsMerge` (short-cuts literally, else duplicate-free union in any order);
+`nextM mergeTags = next` and `nextM mg` differs from `next` in the tag list of the output only. -/
+
+/-- **The tag list of one transmission**: what `nextPacket` hands out carries the tag lists of the
+packets it packed, in order (followed by `t` on the single-packet path); packed packets, carry-over
+and remaining queue are a sublist of the packet in hand followed by the queue. -/
+theorem transmission_tags (P F : Nat) (hP : P < Facts.fragMax) (i : Bytes) (t : List Nat)
+    (n : Option Pkt) (q : List Pkt) (hq : ∀ a ∈ n.toList ++ q, QWF a) (hne : n.toList ++ q ≠ []) :
+    ∃ o taken, (nextPacket P F q n i t).1 = some o ∧
+      (o.tags = tagsOf taken ∨ o.tags = tagsOf taken ++ t) ∧
+      (taken ++ (nextPacket P F q n i t).2.1.toList ++ (nextPacket P F q n i t).2.2).Sublist (n.toList ++ q) :=
+  nextPacket_tags P F hP i t n q hq hne
+
+/-- **One `Session.next` call marshals when the queued tag lists fit together**: for every merge
+function, every budget, every abandoned-group state and every content (queue and carried-over
+packet) of queueable packets, what is handed out has at most as many tags as all held packets
+together and no zero tag; so with `tagSum (content st) ≤ PacketMaxTags` the real `Marshal`
+(`marshalWrites`) accepts it. The session afterwards holds a sublist of what it held. -/
+theorem transmission_marshals (mg : List Nat → List Nat → List Nat) (hmg : ∀ a b, IsMerge a b (mg a b))
+    (P F : Nat) (hP : P < Facts.fragMax) (i : Bytes) (st : St) (hq : ∀ a ∈ content st, QWF a)
+    (hb : tagSum (content st) ≤ Facts.packetMaxTags) (o : Pkt) (ho : (nextM mg P F st i).1 = some o) :
+    (∃ w, marshalWrites o = .ok w) ∧ (content (nextM mg P F st i).2).Sublist (content st) := by
+  obtain ⟨hs, hm⟩ := nextM_marshals mg P F hmg hP i st hq
+  obtain ⟨h1, h2⟩ := hm o ho
+  exact ⟨(marshalWrites_ok_iff o).mpr ⟨Nat.le_trans h1 hb, h2⟩, hs⟩
+
+/-- **Every transmission until the queue drains marshals** under the same hypothesis, for every
+number of transmissions. -/
+theorem drain_marshals (mg : List Nat → List Nat → List Nat) (hmg : ∀ a b, IsMerge a b (mg a b))
+    (P F : Nat) (hP : P < Facts.fragMax) (i : Bytes) (fuel : Nat) (st : St) (hq : ∀ a ∈ content st, QWF a)
+    (hb : tagSum (content st) ≤ Facts.packetMaxTags) :
+    ∀ o ∈ drainM mg P F i fuel st, ∃ w, marshalWrites o = .ok w := by
+  intro o ho
+  obtain ⟨h1, h2⟩ := drainM_marshals mg P F hmg hP i fuel st hq o ho
+  exact (marshalWrites_ok_iff o).mpr ⟨Nat.le_trans h1 hb, h2⟩
+
+/-- the model's `next` is `nextM` with the model's (sorting) merge function, and the state after a
+call does not depend on the merge function: the losslessness theorems above speak about `nextM` too -/
+theorem nextM_is_next (P F : Nat) (st : St) (i : Bytes) :
+    nextM mergeTags P F st i = next P F st i ∧
+    ∀ mg, (nextM mg P F st i).2 = (next P F st i).2 :=
+  ⟨rfl, fun mg => nextM_state mg P F st i⟩
+
+-- OPEN (batch_wire_roundtrip): for the transmission `o` of `transmission_marshals`,
+--   `Packet.unmarshal cf (marshalWrites o) = o` (C01's wire round trip). Needs `Packet.WF o` for a
+--   batch: flags < 2^64 after SetLen / or, payload ≤ MaxSlice (a bound on limits.Frag); not proved.
+
+/-- **The hypothesis is needed - a batch `Marshal` refuses** (negation on a witness): three
+well-formed queueable packets, the first without tags, the other two with 16385 tags each (each
+within `PacketMaxTags` = 32768 on its own), budget 256 packets / 32 MiB: the one transmission
+`Session.next` builds dequeues all three, carries 32770 tags, and `Marshal` answers "tags list is
+too large" - the three packets are lost. (`t = []` here, so `mergeTags` returns the batch's list
+unchanged whatever the map order.) -/
+theorem tags_overflow_witness :
+    (∀ a ∈ content witnessSt, QWF a) ∧
+    ∃ o, (next 256 33554432 witnessSt witnessDev).1 = some o ∧
+      o.tags.length = 32770 ∧ marshalWrites o = .error .tooManyTags ∧
+      content (next 256 33554432 witnessSt witnessDev).2 = [] :=
+  ⟨witness_qwf, witness_overflow⟩
+
+/-! Non-vacuity of the s3 theorems: a merge function exists (on the instance the model's own), the
+tag budget hypothesis holds for a queue with tags. -/
+example : ∃ mg : List Nat → List Nat → List Nat, ∀ a b, IsMerge a b (mg a b) := ⟨mergeRef, mergeRef_isMerge⟩
+example : IsMerge [3, 1] [1, 2] [1, 2, 3] := by decide
+example : ¬ IsMerge [3, 1] [1, 2] [1, 2, 3, 3] := by decide
+example : IsMerge [] [1, 2] (mergeTags [] [1, 2]) := by decide
+def tagged (j : Nat) (ts : List Nat) : Pkt := { dat j with tags := ts }
+example : QWF (tagged 5 [1, 2]) := by
+  refine ⟨⟨by decide, by decide, by decide, by decide, by decide, by decide, by decide⟩, by decide, by decide⟩
+example : tagSum (content { q := [tagged 5 [1, 2], tagged 6 [2, 9]], peek := none, last := 0 }) ≤ Facts.packetMaxTags := by decide
+example : ((nextM mergeRef 256 1000 { q := [tagged 5 [1, 2], tagged 6 [2, 9]], peek := none, last := 0 } dev).1.map (·.tags)) =
+    some [9, 1, 2] := by decide
+
+/-! ## Extension s3, part 2: the Job number `verifyPacket` draws
+
+`XMT/BatchDraw.lean` is `Session.next` with the PRNG words as an input (`w : Nat → Nat`, `k` words
+consumed so far): `verifyPacket` gives a packet queued with Job 0, ID above 1 and no Proxy flag the
+Job `uint16(word)`. The differential run scripts the words (op `drainJ`), so model and code are
+compared exactly, Job included. -/
+
+/-- **The drawn Job is what the peer observes; nothing else changes**: `verifyPacket` with the next
+word `w k` gives a packet that needs a Job the Job `w k mod 2^16` and consumes exactly that word;
+every other packet keeps its Job and consumes nothing; ID, flags, tags and payload are untouched,
+device and result are those of the draw-free `verify`. -/
+theorem verify_draw (w : Nat → Nat) (n : Pkt) (i : Bytes) (k : Nat) :
+    ((verifyD w n i k).1.job = if needsJob n then w k % 2^16 else n.job) ∧
+    ((verifyD w n i k).2.2 = if needsJob n then k + 1 else k) ∧
+    (verifyD w n i k).1.id = n.id ∧ (verifyD w n i k).1.flags = n.flags ∧
+    (verifyD w n i k).1.tags = n.tags ∧ (verifyD w n i k).1.payload = n.payload ∧
+    (verifyD w n i k).1.dev = (verify n i).1.dev ∧ (verifyD w n i k).2.1 = (verify n i).2 :=
+  verifyD_spec w n i k
+
+/-- **Where nothing needs a Job the model with draws is the model without**: for every word stream,
+budget and state whose packets all carry a Job (or have ID ≤ 1 or the Proxy flag), `nextD` hands out
+what `next` hands out, leaves the same state and consumes no word - every theorem above is a theorem
+about `nextD` on that domain. -/
+theorem next_with_draws_agrees (w : Nat → Nat) (P F : Nat) (st : St) (i : Bytes) (k : Nat)
+    (hq : ∀ a ∈ content st, needsJob a = false) :
+    nextD w P F st i k = ((next P F st i).1, (next P F st i).2, k) :=
+  nextD_no_draw w P F st i k hq
+
+/-- **One `Session.next` call with Job draws is the draw-free call on the pre-stamped session**: for
+every word stream, budget and session (no abandoned group pending) there is a session `st₁` whose
+content is the content of `st`, packet for packet, where only packets that needed a Job may differ
+and only in carrying the low 16 bits of a drawn word as Job (`LR`), such that `nextD` hands out
+exactly what `next` hands out on `st₁` and leaves exactly the same state: the batching code never
+looks at the Job field, so `session_next_lossless` applies to `st₁`. -/
+theorem session_next_draws (w : Nat → Nat) (P F : Nat) (st : St) (i : Bytes) (k : Nat) (hl : st.last = 0) :
+    ∃ st₁ : St, LR w (content st) (content st₁) ∧ st₁.last = 0 ∧
+      (nextD w P F st i k).1 = (next P F st₁ i).1 ∧ (nextD w P F st i k).2.1 = (next P F st₁ i).2 :=
+  nextD_sim w P F st i k hl
+
+/-- **All successive transmissions with Job draws**: for every word stream, every budget and every
+content of queueable packets (packets queued without a Job included), what the peer's handlers
+observe until the queue drains is - keep-alives and tag lists aside - a sequence `L` that is the
+queued sequence packet for packet (`LR`): a packet that did not need a Job is intact, a packet that
+needed one is intact except that its Job is `w j mod 2^16` for a word index `j`. -/
+theorem drain_lossless_draws (w : Nat → Nat) (P F : Nat) (hP : P < Facts.fragMax) (hP2 : 2 ≤ P)
+    (i : Bytes) (st : St) (k : Nat) (hlast : st.last = 0) (hq : ∀ a ∈ content st, QWF a) :
+    ∃ obs L, observe (drainD P F w i ((content st).length + 1) st k) = .ok obs ∧
+      LR w (content st) L ∧ (keepF obs).map core = (keepF L).map core :=
+  drainD_spec P F w hP hP2 i _ st k (Nat.lt_succ_self _) hlast hq
+
+-- OPEN (drain_lossless_draws_abandoned_group): the same with a fragment group the peer asked to
+--   abandon pending (`st.last > 0`): `nextFromD_sim` is proved for `last = 0` only.
+-- OPEN (draw_order): WHICH word a packet gets (`j` = number of words consumed before it, in the order
+--   the packets are packed) is fixed by the model and compared exactly by the differential group
+--   `jobdraw`, but `LR` only says "some word".
+
+example : LR (fun k => 70000 + k) [dat 0, dat 7] [dat 4464, dat 7] :=
+  .cons (Or.inr ⟨by decide, 0, rfl⟩) (.cons (Or.inl rfl) .nil)
+example : needsJob (dat 0) = true := by decide
+example : needsJob (dat 5) = false := by decide
+example : (verifyD (fun k => 70000 + k) (dat 0) dev 3).1.job = 4467 := by decide
+example : ((nextD (fun k => 70000 + k) 256 1000 { q := [dat 0, dat 0], peek := none, last := 0 } dev 0).1.map (unpack 3)) =
+    some (.ok [dat 4464, dat 4465]) := by rfl
+
+/-! ## Extension s3, part 3: every arm of `pick` - histories mixing `next(true)`, `next(false)`, `queue` -/
+
+/-- **With something to send `next(i)` is the proven `next` in every mode**, and with nothing to
+send it blocks (state untouched), returns nothing, or sends the idle packet and leaves an empty
+session: no arm of `pick` touches a queued packet other than by handing it to the batching code. -/
+theorem next_all_arms (P F : Nat) (md : Mode) (ib : Bool) (ks : Option Bytes) (st : St) (i : Bytes) :
+    (content st ≠ [] → nextB P F md ib ks st i = (Tx.ofOption (next P F st i).1, (next P F st i).2)) ∧
+    (content st = [] →
+      (nextB P F md ib ks st i = (.blocked, st)) ∨
+      (nextB P F md ib ks st i = (.nothing, { st with peek := none })) ∨
+      (nextB P F md ib ks st i = (.sent (idlePkt i ks), { q := [], peek := none, last := 0 }))) :=
+  ⟨nextB_nonempty P F md ib ks st i, nextB_empty P F md ib ks st i⟩
+
+/-- **Histories mixing `next(true)`, `next(false)` and `queue` lose nothing**: see
+`XMT.Batch.mixed_history_lossless` - for every budget, every session mode and `keyNextSync` outcome
+per call and every interleaving of calls with `queue` events: what the peer unpacks from the
+transmissions made with something to send, followed by what the session still holds, is - keep-alives
+and tag lists aside - what it held at the start followed by what was queued since, each once, in
+order; the other transmissions are idle packets (bare keep-alive / re-key announcement). -/
+theorem mixed_calls_lossless (P F : Nat) (hP : P < Facts.fragMax) (hP2 : 2 ≤ P) (i : Bytes)
+    (es : List Ev) (st : St) (hl : st.last = 0) (hq : ∀ a ∈ content st, QWF a)
+    (hqe : ∀ a ∈ queuedOf es, QWF a) :
+    ∃ obs, observe (carrying (runB P F i es st).1) = .ok obs ∧
+      (keepF (obs ++ content (runB P F i es st).2)).map core
+        = (keepF (content st ++ queuedOf es)).map core ∧
+      (∀ x ∈ (runB P F i es st).1, x.2 = true → ∃ ks, x.1 = idlePkt i ks) :=
+  mixed_history_lossless P F hP hP2 i es st hl hq hqe
+
+/-- a call blocked in the server-side channel arm completes, when a packet is queued, as a call on
+that packet -/
+theorem blocked_call_resumes (P F : Nat) (st : St) (i : Bytes) (p : Pkt) (hp : st.peek = none) :
+    resume P F st i p =
+      (Tx.ofOption (next P F { st with q := p :: st.q } i).1, (next P F { st with q := p :: st.q } i).2) :=
+  resume_eq P F st i p hp
+
+def srvChan : Mode := { client := false, parentNil := false, channel := true }
+def cliPoll : Mode := { client := true, parentNil := true, channel := false }
+example : (nextB 256 1000 srvChan false none { q := [], peek := none, last := 0 } dev).1 matches .blocked := by decide
+example : (nextB 256 1000 cliPoll true none { q := [], peek := none, last := 0 } dev).1 matches .nothing := by decide
+example : (nextB 256 1000 cliPoll false none { q := [], peek := none, last := 0 } dev).1 matches .sent _ := by decide
+example : carrying (runB 256 1000 dev [.call cliPoll false none, .queue (dat 5), .call srvChan false none, .queue (dat 6),
+    .call cliPoll true none] { q := [], peek := none, last := 0 }).1 = [dat 5, dat 6] := by rfl
 
 end XMT.Props.C03
